@@ -896,3 +896,96 @@ func lexLong(args []string) error {
 // hangsByDesign: (reserved) definitions whose rules can loop without consuming are rejected by the lexer with an error, so
 // no definition is expected to hang.
 func hangsByDesign(*rawCase) bool { return false }
+
+func init() { commands["json-errors"] = jsonErrors }
+
+// json-errors <raw.json> <maxlen>: (1) the ERROR TEXT of a failing Next() is the same for the original definition and for the
+// three definitions rebuilt from JSON, on every input up to maxlen; (2) the JSON of single rules obtained by calling
+// Rule.MarshalJSON directly stays what it was when further rules are marshalled.  Lines "MISMATCH\tcase\tdetail"; "DONE\tn".
+func jsonErrors(args []string) error {
+	raw, err := readRaw(args[0])
+	if err != nil {
+		return err
+	}
+	maxlen, _ := strconv.Atoi(args[1])
+	errText := func(def lexer.Definition, in string) (out string) {
+		defer func() {
+			if r := recover(); r != nil {
+				out = fmt.Sprintf("panic %v", r)
+			}
+		}()
+		l, err := def.Lex("f.txt", strings.NewReader(in))
+		if err != nil {
+			return "init: " + err.Error()
+		}
+		for n := 0; n <= len(in)+1; n++ {
+			t, err := l.Next()
+			if err != nil {
+				return err.Error()
+			}
+			if t.EOF() {
+				return ""
+			}
+		}
+		return "no end"
+	}
+	n := 0
+	for i := range raw.Cases {
+		c := &raw.Cases[i]
+		if hangsByDesign(c) {
+			continue
+		}
+		orig, _ := runtimeMaker(c)
+		if orig == nil {
+			continue
+		}
+		// (2) rule by rule
+		type held struct {
+			b    []byte
+			copy string
+		}
+		var hs []held
+		for _, rs := range c.rules() {
+			for ri := range rs {
+				b, err := rs[ri].MarshalJSON()
+				if err != nil {
+					continue
+				}
+				hs = append(hs, held{b, string(b)})
+			}
+		}
+		for _, h := range hs {
+			n++
+			if string(h.b) != h.copy {
+				fmt.Printf("MISMATCH\t%s\tthe JSON of a rule obtained from Rule.MarshalJSON changed while other rules were marshalled: %q became %q\n", c.ID, h.copy, string(h.b))
+				break
+			}
+		}
+		// (1) error texts
+		var rts []lexer.Definition
+		var names []string
+		for _, mk := range []string{"json-def", "json-rules", "json-source"} {
+			if d, _ := makerByName(mk)(c); d != nil {
+				rts = append(rts, d)
+				names = append(names, mk)
+			}
+		}
+		bad := false
+		enumInputs(raw.Alpha, maxlen, func(in string) {
+			if bad {
+				return
+			}
+			want := errText(orig, in)
+			for k, d := range rts {
+				n++
+				if got := errText(d, in); got != want {
+					bad = true
+					fmt.Printf("MISMATCH\t%s\tafter the %s round trip the error on input %q reads %q; the original definition says %q\n", c.ID, names[k], in, got, want)
+					return
+				}
+			}
+		})
+	}
+	fmt.Printf("DONE\t%d\n", n)
+	return nil
+}
